@@ -322,7 +322,9 @@ int bufr_subset_find_values( DataSubset *dts, BufrDescValue *codes, int nb, int 
 				scale = cb->encoding.scale ? pow(10,(double)cb->encoding.scale) : 1;
 				epsilon = 0.5 / scale;
 					
-				if( bufr_compare_value( qd->value, qual[k].values[0], epsilon ) )
+				/* a qualifier key without a value only asks for the qualifier to be in effect */
+				if( qual[k].nbval > 0
+					&& bufr_compare_value( qd->value, qual[k].values[0], epsilon ) )
 					{
 					break;
 					}
